@@ -6,7 +6,7 @@ from ..norm import n, P, C, V, ANY, match, find_all, binop
 from . import common, cmpmodel, cfgdiff, simd, hexcodec, c01
 
 ID = "C07"
-CONFIGS = {"quick": ["K0", "K1", "K3", "K5", "K6", "K7", "K8", "K9", "K13", "K14a", "K17", "K20", "K21"],
+CONFIGS = {"quick": ["K0", "K1", "K2", "K3", "K4", "K5", "K6", "K7", "K8", "K9", "K13", "K14a", "K14b", "K17", "K20", "K21"],
            "thorough": ["K0", "K1", "K2", "K3", "K4", "K5", "K6", "K7", "K8", "K9", "K10", "K11", "K12", "K13", "K14a", "K14b", "K14c", "K15", "K16", "K17", "K19", "K20", "K21"]}
 # a configuration of the host target that stops type-checking is itself a violation; the cross-target ones (K17..K21, built with
 # -Zbuild-std) are skipped with a note if they cannot be built
